@@ -6,11 +6,6 @@ and after a valid first request hands on every request, in order.
 -/
 namespace IstioModel.C04
 
-theorem RecvRes.cons_ne_crash (i : Nat) (r : RecvRes) (h : r ≠ .crash) : RecvRes.cons i r ≠ .crash := by
-  cases r with
-  | crash => exact absurd rfl h
-  | done o => simp [RecvRes.cons]
-
 /-- **Crash freedom of `Receive` / `receiveDelta`**: whatever the client sends - no node, an empty or
     malformed node id, probes, unknown or empty type URLs, in any order - the receive goroutine does not
     dereference a nil pointer. -/
